@@ -181,9 +181,55 @@ class ReturnTemp(ast.NodeTransformer):
         return self.generic_visit(n)
 
 
+class HoistArg(ast.NodeTransformer):
+    """T8: in `x = f(<complex>, ...)` / `f(<complex>, ...)` / `return f(<complex>, ...)` the first positional argument is computed into a temporary first
+    (only when f is a plain name or attribute chain, so that evaluation order is unchanged, and never inside numba-compiled functions' lambdas)."""
+
+    def __init__(self):
+        self.k = 0
+
+    def _hoist(self, stmt, call):
+        if not (isinstance(call, ast.Call) and call.args and not isinstance(call.args[0], (ast.Name, ast.Constant, ast.Starred, ast.Lambda, ast.GeneratorExp))):
+            return [stmt]
+        f = call.func
+        while isinstance(f, ast.Attribute):
+            f = f.value
+        if not isinstance(f, ast.Name):
+            return [stmt]
+        self.k += 1
+        name = f'_arg{self.k}'
+        pre = ast.Assign(targets=[ast.Name(id=name, ctx=ast.Store())], value=call.args[0], lineno=stmt.lineno)
+        call.args[0] = ast.Name(id=name, ctx=ast.Load())
+        return [pre, stmt]
+
+    def _body(self, body):
+        out = []
+        for s in body:
+            if isinstance(s, ast.Assign) and isinstance(s.value, ast.Call):
+                out.extend(self._hoist(s, s.value))
+            elif isinstance(s, ast.Expr) and isinstance(s.value, ast.Call):
+                out.extend(self._hoist(s, s.value))
+            elif isinstance(s, ast.Return) and isinstance(s.value, ast.Call):
+                out.extend(self._hoist(s, s.value))
+            else:
+                out.append(s)
+        return out
+
+    def generic_visit(self, node):
+        super().generic_visit(node)
+        if isinstance(node, (ast.Module, ast.ClassDef)):
+            return node
+        for field in ('body', 'orelse', 'finalbody'):
+            b = getattr(node, field, None)
+            if isinstance(b, list) and b and isinstance(b[0], ast.stmt):
+                setattr(node, field, self._body(b))
+        return node
+
+
 def main():
     kind, out = sys.argv[1], pathlib.Path(sys.argv[2])
-    root = pathlib.Path('/repo')
+    import os
+    root = pathlib.Path(os.environ.get('BENIGN_SRC', '/repo'))
     for p in (root / 'spatialpandas').rglob('*.py'):
         rel = p.relative_to(root)
         if 'tests' in rel.parts:
@@ -198,6 +244,8 @@ def main():
             tree = Noop().visit(tree)
         elif kind == 'T7':
             tree = SwapEq().visit(tree)
+        elif kind == 'T8':
+            tree = HoistArg().visit(tree)
         elif kind == 'T5':
             tree = InvertIf().visit(tree)
         elif kind == 'T6':
